@@ -50,14 +50,18 @@ class FakeType:
             (other.full_name, other.version.major, other.version.minor)
 
 
-def snapshot(root):
+def snapshot(root, rel_to=None):
+    """every file (and symlinked directory) below `root`, named relative to `rel_to` (default root): the case directory -- the
+    PARENT of the sandbox that is the parent of the output directory -- is walked, so that files escaping the output directory
+    and even the sandbox show up (as ../...)"""
     out = set()
+    rel_to = rel_to or root
     for d, dirs, files in os.walk(root):
         for f in files:
-            out.add(os.path.relpath(os.path.join(d, f), root))
+            out.add(os.path.relpath(os.path.join(d, f), rel_to))
         for x in dirs:
             if os.path.islink(os.path.join(d, x)):
-                out.add(os.path.relpath(os.path.join(d, x), root))
+                out.add(os.path.relpath(os.path.join(d, x), rel_to))
     return out
 
 
@@ -91,6 +95,10 @@ def run_case(work, case):
     sandbox = os.path.join(cdir, 'sandbox')
     os.makedirs(sandbox)
     types = case['types']
+    if case.get('stem') is not None and '@ABS@' in case['stem']:
+        # an absolute namespace-file stem, confined to this case's own directory
+        case = dict(case, stem=case['stem'].replace('@ABS@', os.path.join(cdir, 'absstem')))
+    res['sandbox'] = sandbox
     root_name = types[0][0][0]
     write_types(dsdl, types)
     root_dir = os.path.join(dsdl, root_name)
@@ -121,16 +129,16 @@ def run_case(work, case):
     res['strop'] = {n: lang.filter_id(n, 'path') for n in sorted(names)}
     res['strop_any'] = {n: lang.filter_id(n) for n in sorted(names)}     # coverage statistics only
 
-    before = snapshot(sandbox)
+    before = snapshot(cdir, sandbox)
     try:
         root = build_namespace_tree(parsed, root_dir, spelled, lctx)
     except ValueError as ex:
         # the stem check (C11_stem_collide_fix.patch) refuses the configuration; nothing may have been written
         res['raised'] = str(ex)
-        res['after_build_new_files'] = sorted(snapshot(sandbox) - before)
+        res['after_build_new_files'] = sorted(snapshot(cdir, sandbox) - before)
         res['nodes'] = []
         return res
-    res['after_build_new_files'] = sorted(snapshot(sandbox) - before)
+    res['after_build_new_files'] = sorted(snapshot(cdir, sandbox) - before)
 
     # ---- dump of the tree as reachable from the returned root --------------------------------------------------
     def nk(n):
@@ -173,7 +181,7 @@ def run_case(work, case):
     # ---- real generation into the sandbox ------------------------------------------------------------------------
     gen = case.get('generate', 'no')
     if gen != 'no':
-        before = snapshot(sandbox)
+        before = snapshot(cdir, sandbox)
         if gen == 'api':
             g = DSDLCodeGenerator(root)
             res['generate_namespace_types'] = bool(g.generate_namespace_types)
@@ -198,7 +206,21 @@ def run_case(work, case):
             res['cli_rc'] = p.returncode
             res['cli_out'] = p.stdout[-600:]
             res['generate_namespace_types'] = bool(lang.has_standard_namespace_files)
-        res['new_files'] = sorted(snapshot(sandbox) - before)
+        res['new_files'] = sorted(snapshot(cdir, sandbox) - before)
+        if gen == 'cli-support':
+            # the support files alone (same options, --generate-support only, fresh directory): with them the COMPLETE set of files
+            # the run may create is known, nothing is masked
+            sb3 = os.path.join(cdir, 'sandbox3')
+            os.makedirs(sb3)
+            cmd3 = [sys.executable, '-m', 'nunavut', '--target-language', case['lang'], '--experimental-languages',
+                    '--outdir', 'out', '--generate-support', 'only', root_dir]
+            if case.get('ext') is not None:
+                cmd3 += ['--output-extension', case['ext']]
+            if case.get('stem') is not None:
+                cmd3 += ['--namespace-output-stem', case['stem']]
+            p3 = subprocess.run(cmd3, cwd=sb3, stdout=subprocess.PIPE, stderr=subprocess.STDOUT, text=True, timeout=300)
+            res['support_rc'] = p3.returncode
+            res['support_files'] = sorted(snapshot(sb3))
 
     # ---- the same type merely referenced from another root namespace -----------------------------------------------
     if case.get('user') is not None:
